@@ -364,6 +364,7 @@ class C05(Check):
     def strategy(self, tier):
         return case_strategy(tier)
 
+    @progen.shrink_budget(45)
     def run_case(self, case, ctx):
         d = ctx.dir
         g = Graph(case)
